@@ -155,4 +155,11 @@ theorem op_xce_eq : Gen.CpuGo.Primary.op_xce = Cpu.runP .xce := by
   gorun [shr16, Cpu.setZN8, Cpu.setZN16, Cpu.setZ8, Cpu.setZ16, Cpu.toIndex, Cpu.toAcc, Cpu.srcC, Cpu.srcX, Cpu.srcY, Cpu.compare8,
     Cpu.compare16, Cpu.addBranchCycles]
 
+theorem op_wai_eq : Gen.CpuGo.Primary.op_wai = Cpu.runP .nop := by
+  funext s
+  simp only [Gen.CpuGo.Primary.op_wai, Cpu.runP, Cpu.logic, Cpu.rmw, Cpu.branchIf, Cpu.blockMove, Cpu.interruptLike,
+    Cpu.interruptBody, Cpu.rtiBody, gotie_p]
+  gorun [shr16, Cpu.setZN8, Cpu.setZN16, Cpu.setZ8, Cpu.setZ16, Cpu.toIndex, Cpu.toAcc, Cpu.srcC, Cpu.srcX, Cpu.srcY, Cpu.compare8,
+    Cpu.compare16, Cpu.addBranchCycles]
+
 end Cpu.GoTie.Primary
